@@ -112,6 +112,10 @@ def transpile_token(
                 after_char = next(iterator, "")
                 if after_char == "`":
                     temp += "`"
+                elif after_char == "":
+                    # a lone trailing backslash (e.g. from a two-character
+                    # string) must not escape the closing quote
+                    temp += "\\\\"
                 else:
                     temp += "\\" + after_char
             elif char == '"':
